@@ -8,7 +8,7 @@ correspondence check executes.
 * `SGraph`, `W`, `SGraph.apply`, `W.modifies`, `STx`, `St`, `St.view`, `St.recordWrite`, `St.touch`
   were moved here verbatim from `Driver/Sess.lean`, which imports them.
 * `Op`, `mstep`, `St.step`, `St.res`, `run` are new: what `DriverSess.handle` does to `z.w` and to
-  the oracle fields of `z` for the ops `begin commit rollback cn (= qcn) ce qce dbcn`, argument
+  the oracle fields of `z` for the ops `begin commit rollback cn (= qcn) ce qce dbcn qmerge`, argument
   parsing and output formatting taken away.
 -/
 namespace Grafeo.SessSpec
@@ -91,7 +91,7 @@ def St.touch (z : St) (k key : Nat) : St :=
 /-! ### the creation-only fragment of the stream -/
 
 /-- `cn` stands for the stream ops `cn` and `qcn` (same effect on model and oracle); `qce k src ty l`
-is `MATCH (a) WHERE id(a) = src CREATE (a)-[:ty]->(b:l)`. -/
+is `MATCH (a) WHERE id(a) = src CREATE (a)-[:ty]->(b:l)`; `qmerge k l` is `MERGE (n:l)`. -/
 inductive Op where
   | begin (k : Nat) (iso : Iso)
   | commit (k : Nat)
@@ -100,6 +100,7 @@ inductive Op where
   | ce (k src dst ty : Nat)
   | qce (k src ty l : Nat)
   | dbcn (labels : List Nat)
+  | qmerge (k l : Nat)
   deriving DecidableEq, Repr
 
 /-- what `DriverSess.handle` does to the model world `z.w` -/
@@ -111,6 +112,7 @@ def mstep (w : World) : Op → World
   | .ce k s d t => (w.createEdge k s d t).1
   | .qce k s t l => if (w.scanAll k).contains s then (w.createNodeAndEdge k s l t).1 else w
   | .dbcn ls => (w.dbCreateNode ls).1
+  | .qmerge k l => (w.qMerge k l).1
 
 /-- what `DriverSess.handle` does to the whole stream state (model world and oracle fields) -/
 def St.step (z : St) : Op → St
@@ -162,10 +164,18 @@ def St.step (z : St) : Op → St
   | .dbcn ls =>
     let (w', id) := z.w.dbCreateNode ls
     { z with w := w', committed := z.committed.apply (.node id ls) }
+  | .qmerge k l =>
+    let (w', r) := z.w.qMerge k l
+    let z1 := { z with w := w' }
+    match r with
+    | some id =>
+      match (aget z1.txs k).getD none with
+      | some t => { z1 with txs := aset z1.txs k (some { t with writes := t.writes ++ [.node id [l]] }) }
+      | none => { z1 with committed := z1.committed.apply (.node id [l]) }
+    | none => z1
 
-/-- the two result columns `handle` prints for the ops that have a result: what the model answers and
-what the oracle answers (`begin` / `commit` / `rollback`: the call's result; `qce`: did the `MATCH`
-find its anchor — `.ok` — or return no rows). Creations always succeed on both sides. -/
+/-- the two result columns `handle` prints for `begin` / `commit` / `rollback`: what the model answers
+and what the oracle answers. (Creations always succeed on both sides.) -/
 def St.res (z : St) : Op → R × R
   | .begin k iso =>
     ((z.w.begin k iso).2, if ((aget z.txs k).getD none).isSome then .err "invalid" else .ok)
@@ -177,10 +187,15 @@ def St.res (z : St) : Op → R × R
     ((z.w.commit k).2, if st.isNone then .err "invalid" else if conflict then .err "conflict" else .ok)
   | .rollback k =>
     ((z.w.rollback k).2, if ((aget z.txs k).getD none).isSome then .ok else .err "invalid")
-  | .qce k s _ _ =>
-    (if (z.w.scanAll k).contains s then .ok else .err "norows",
-     if (aget (z.view k).nodes s).isSome then .ok else .err "norows")
   | _ => (.ok, .ok)
+
+/-- did the `MATCH` part of a query find something, according to the model and according to the
+oracle: `qce` — the anchor node is in the session's scan / in its view; `qmerge` — some node carrying
+the label is visible (then nothing is created). -/
+def St.matched (z : St) : Op → Bool × Bool
+  | .qce k s _ _ => ((z.w.scanAll k).contains s, (aget (z.view k).nodes s).isSome)
+  | .qmerge k l => ((z.w.qMerge k l).2.isNone, (z.view k).nodes.any (fun kv => kv.2.1.contains l))
+  | _ => (true, true)
 
 /-- the stream from `sess new` -/
 def run (ops : List Op) : St := ops.foldl St.step {}
